@@ -169,6 +169,16 @@ func c04(r *Report) propMeta {
 	r.Rule("C04.R8", "E15 wire fields validated by their own type")
 	r.WireFieldsValidated("wire", "x/tss/types", []string{"MsgSubmitDKGRound1", "MsgSubmitDKGRound2", "MsgComplain", "MsgConfirm"}, 7)
 
+	r.Rule("C04.R9", "E18 fixed-width wire encodings of pkg/tss values")
+	r.FixedWidth("one-encoding", []fixedWidth{
+		{"pkg/tss.Point.publicKey", "p", "const:33", "tss.Point (compressed secp256k1 point)"},
+		{"pkg/tss.Scalar.Validate", "s", "const:32", "tss.Scalar"},
+		{"pkg/tss.EncSecretShare.Validate", "e", "const:48", "tss.EncSecretShare"},
+		{"pkg/tss/internal/schnorr.ParseSignature", "signature", w.ConstAtom("pkg/tss/internal/schnorr", "SignatureSize"), "tss.Signature"},
+		{"pkg/tss/internal/schnorr.ParseComplaintSignature", "signature", w.ConstAtom("pkg/tss/internal/schnorr", "ComplaintSignatureSize"), "tss.ComplaintSignature"},
+	})
+	r.ExternalCallers("point-parsers", "pkg/tss", "secp256k1/v4.ParsePubKey", []string{"pkg/tss.Point.publicKey", "pkg/tss/internal/schnorr.ParseSignature", "pkg/tss/internal/schnorr.ParseComplaintSignature"})
+
 	return propMeta{
 		Decided: []string{
 			"R1 each DKG handler writes only when group.Status is its round, the member id belongs to the sender, nothing was submitted before, and the round's verification passed; the next round is queued exactly at count == group.Size (counted after the write); all complaints of one message name one complainant",
@@ -179,6 +189,7 @@ func c04(r *Report) propMeta {
 			"R6 chain and daemon use the same FindMemberSlot(sender, receiver) and the daemon complains exactly when VerifySecretShare fails",
 			"R7 every KV-store Get/Has/Delete of x/tss uses a key builder of x/tss/types that some Set of the module also uses (a probe of an iteration prefix or of a sibling family is always-empty state)",
 			"R8 every pkg/tss-typed field of the four DKG messages (commits, one-time key, both proofs, encrypted shares, key-sym, complaint signature, own-key signature) reaches its own type's Validate() from ValidateBasic",
+			"R9 every pkg/tss byte type has exactly one accepted length (Point 33 - compressed only, finding F6 -, Scalar 32, EncSecretShare 48, Signature 65, ComplaintSignature 98): the raw bytes are hashed, a second encoding of the same value would change challenges and symmetric keys",
 		},
 		Undecided: []string{"that consistent commitments imply a shared key any threshold subset can use (algebra)", "'an honest member is never marked malicious' (needs the algebra behind R3)", "expiry interleavings"},
 		Assume:    []string{"secp256k1 / elgamal / schnorr primitives of pkg/tss", "msg handlers atomic"},
